@@ -186,6 +186,8 @@ func runC15(c *core.Ctx) {
 		c.Feature("size-sweep:long-history")
 	}
 	h := hgen.Gen(c.R, o)
+	h.ZoneMode = c.R.Intn(hgen.ZoneModes)
+	c.Feature(fmt.Sprintf("feeds-parsed-with-zone-mode:%d", h.ZoneMode))
 	feeds, err := h.Parse()
 	if err != nil {
 		c.Violationf("C15|parse-error", map[string]any{"error": err.Error()}, "ParseRealtime rejected a history feed: %v", err)
